@@ -51,8 +51,8 @@ CLAIMS = {
         "engine": "verus",
         "technique": V + ": equational strongest postconditions on every writer method (sent' == sent + owed terminator + payloads), typestate invariant of RowWriter with exists/forall ghost trace, hub replies",
         "design_ref": "DESIGN.md section 6 C03",
-        "text": "Every method of InitWriter, StatementMetaWriter, QueryResultWriter and RowWriter (except write_row) is proved to extend the packet list by exactly the packets the grammar prescribes: remembered terminator with MORE set on start/complete_one/error and clear on no_more_results/finish, header = count+coldefs+EOF, one packet per ended row, OK(rows) for zero-column sets, shape errors (too few / too many columns) return Err with nothing sent. The hub is proved to answer PING/FIELD_LIST/SELECT @@ itself, to write nothing for CLOSE/SEND_LONG_DATA/QUIT, and to flush at a packet boundary after every command. The default on_init replies OK.",
-        "note": "Includes C04/C05 (U1 framing machine clauses count: a mis-framed or mis-numbered response is not conformant). The induction over arbitrary writer-API programs rests on Rust's ownership discipline (each program is a chain of the proved methods); the composition of the per-method equations into the response grammar is argued in DESIGN.md, not mechanised. RowWriter::write_row is assumed (generic iterator). A shim that returns Ok without using its writer, or that ignores a writer error, is outside the contract. Drop bodies: known findings D10 (C19).",
+        "text": "Every method of InitWriter, StatementMetaWriter, QueryResultWriter and RowWriter (write_row for Vec / slice / iter::Once row arguments) is proved to extend the packet list by exactly the packets the grammar prescribes: remembered terminator with MORE set on start/complete_one/error and clear on no_more_results/finish, header = count+coldefs+EOF, one packet per ended row, OK(rows) for zero-column sets, shape errors (too few / too many columns) return Err with nothing sent. The hub is proved to answer PING/FIELD_LIST/SELECT @@ itself, to write nothing for CLOSE/SEND_LONG_DATA/QUIT, and to flush at a packet boundary after every command. The default on_init replies OK.",
+        "note": "Includes C04/C05 (U1 framing machine clauses count: a mis-framed or mis-numbered response is not conformant). The induction over arbitrary writer-API programs rests on Rust's ownership discipline (each program is a chain of the proved methods); the composition of the per-method equations into the response grammar is argued in DESIGN.md, not mechanised. RowWriter::write_row is proved for the row-argument types the crate and its tests use (rule R8: the generic IntoIterator parameter is replaced by a trait with a ghost item list; other iterator adapters are outside the proof). A destructor must not return normally after a new transport fault ([C19.drop.*.nomask]); A shim that returns Ok without using its writer, or that ignores a writer error, is outside the contract. Drop bodies: known findings D10 (C19).",
     },
     "C04": {
         "engine": "verus",
